@@ -252,6 +252,7 @@ def run(ctx):
             ctx.sample({"tree": steps, "faults": len(faults)}, cap=3)
         _schema_graphs(ctx, tr, pk, base)
         _res2_correspondence(ctx, tr, pk, base)
+        _interrupted_loads(ctx, tr, base)
     finally:
         tr.uninstall()
         pk.close()
@@ -523,6 +524,48 @@ def _res2_correspondence(ctx, tr, pk, base):
                         break
         finally:
             shutil.rmtree(root, ignore_errors=True)
+
+
+def _interrupted_loads(ctx, tr, base):
+    """"however the load ends": a KeyboardInterrupt or SystemExit raised while a value is converted (top level, inside a section,
+    in an included resource) ends the load with something that is not an Exception; everything opened must be closed all the same"""
+    import ZConfig
+    schema = ZConfig.loadSchemaFile(io.StringIO(
+        "<schema><sectiontype name='s'><key name='v' datatype='zcvdt.interrupt'/></sectiontype><multisection type='s' name='*' attribute='ss'/>"
+        "<multikey name='k' datatype='zcvdt.interrupt'/></schema>"))
+    for marker in ("!kbd", "!exit"):
+        for where in ("top", "section", "included", "included-section", "nested-include"):
+            root = tempfile.mkdtemp(prefix="zcv-c19i-", dir=base)
+            try:
+                def w(n, t):
+                    with open(os.path.join(root, n), "w") as f:
+                        f.write(t)
+                bad = "k fine\nk x%sx\n" % marker
+                badsec = "<s>\n v %s\n</s>\n" % marker
+                w("inc2.conf", bad if where == "nested-include" else "k ok2\n")
+                w("inc.conf", bad if where == "included" else badsec if where == "included-section" else "k ok\n%include inc2.conf\n")
+                w("main.conf", "k first\n%include inc.conf\n" + (bad if where == "top" else badsec if where == "section" else "") + "k last\n")
+                for entry in ("url", "file"):
+                    tr.reset()
+                    try:
+                        if entry == "url":
+                            ZConfig.loadConfig(schema, os.path.join(root, "main.conf"))
+                        else:
+                            with open(os.path.join(root, "main.conf")) as f:
+                                ZConfig.loadConfigFile(schema, f)
+                        ended = "ok"
+                    except BaseException as e:
+                        ended = type(e).__name__
+                    ctx.evaluations += 1
+                    ctx.nontriv(("interrupted", marker, where, entry))
+                    ctx.count("interrupted:%s:%s" % (where, ended))
+                    leaks = tr.leaks()
+                    if leaks:
+                        ctx.violate("a load ended by %s (raised while converting a value, %s, entry by %s): still open %r" % (ended, where, entry, leaks),
+                                    {"marker": marker, "where": where, "entry": entry, "ended": ended, "events": tr.events},
+                                    signature="C19:leak:interrupted")
+            finally:
+                shutil.rmtree(root, ignore_errors=True)
 
 
 def _failed_import_leaves_nothing(ctx, pk):
